@@ -49,6 +49,21 @@ def main():
         proof = framework.prove(prop, spec, tier)
         run = framework.Run(prop, tier, seed)
         families.run(prop, spec, run)
+        # static tie: modelled functions whose text differs from the snapshot the model was validated against
+        import fingerprint
+        changed = fingerprint.changed(prop)
+        if changed:
+            run.notes.append("source differs from the snapshot the model was validated against (harness/fingerprints.json): " + "; ".join(changed[:12]) +
+                             (" ... {} more".format(len(changed) - 12) if len(changed) > 12 else ""))
+            run.dist["source_functions_changed"] = len(changed)
+            if not args.replay and not run.violations:
+                # spend more search effort where the correspondence is in question: further seeds of the same streams
+                for r in range(int(os.environ.get("VERIF_CHANGED_REPEATS", "3") or 0)):
+                    if run.violations:
+                        break
+                    run.seed = seed + 7919 * (r + 1)
+                    families.run(prop, spec, run)
+                run.seed = seed
         return framework.finish(run, spec, proof, sw)
     except InfraError as e:
         print("INFRA-ERROR", prop, e)
